@@ -45,8 +45,13 @@ def gen(rng, ctx):
             # and the state input of another:  a -> b,  o -> a
             a, b = rng.sample(ins, 2)
             cd["nodes"] = [[n, t, (o or n == a)] for n, t, o in cd["nodes"]]
-            state_io = {a: b, rng.choice(outs): a}
-            npairs = 2
+            if rng.random() < 0.5:
+                state_io = {a: b, rng.choice(outs): a}
+                npairs = 2
+            else:
+                # ... or only a state output: it stays a free input of every step
+                state_io = {a: b}
+                npairs = 1
         others = len(ins) - npairs
         nmax = 6 if others == 0 else max(1, min(6, (cap - npairs) // max(1, others)))
         n = rng.randint(1, nmax)
@@ -210,6 +215,8 @@ def check(case, ctx):
         ctx.count(f"pairs:{len(state_io)}")
         if set(state_io) & set(state_io.values()):
             ctx.count("feedthrough_state_pair")
+        if any(k_ in net.inputs() and k_ not in state_io.values() for k_ in state_io):
+            ctx.count("state_output_is_a_free_input")
         if n < 2 or not state_io:
             ctx.trivial()
         ins = sorted(net.inputs())
@@ -415,5 +422,5 @@ def check(case, ctx):
 
 
 def gates(counters, table, tier):
-    need = ["flop_q_reaches_only_dropped_pin", "copy_edited_before_call", "iv_dict_reused", "feedthrough_state_pair", "str_ignore_pins", "cmp:unroll", "cmp:sequential_unroll", "pairs:0", "pairs:1", "pairs:2", "iv:None", "iv:0", "iv:1", "iv:dict", "iv:x", "flop_outputs:True", "flop_outputs:False", "remove_unloaded:True", "remove_unloaded:False", "n:1", "n:3", "flops:1", "flops:2", "flops:3"]
+    need = ["flop_q_reaches_only_dropped_pin", "copy_edited_before_call", "iv_dict_reused", "feedthrough_state_pair", "state_output_is_a_free_input", "str_ignore_pins", "cmp:unroll", "cmp:sequential_unroll", "pairs:0", "pairs:1", "pairs:2", "iv:None", "iv:0", "iv:1", "iv:dict", "iv:x", "flop_outputs:True", "flop_outputs:False", "remove_unloaded:True", "remove_unloaded:False", "n:1", "n:3", "flops:1", "flops:2", "flops:3"]
     return [f"{k} seen {counters.get(k, 0)} times" for k in need if counters.get(k, 0) < 5]
